@@ -27,12 +27,32 @@ def integrator_trace(run, it):
     def h(ctx):
         n = ctx.choose(3, "n_inner") + 1
         w = World(it, ctx, constrained=True)
+        # tolerances configured by the user, in any order relation to each other (no assumption constraint_tol >= position_tol)
+        ctol, ptol = z3.Real("cfg_constraint_tol"), z3.Real("cfg_position_tol")
+        ctx.assume(z3.And(ctol > 0, ptol > 0))
+        configured = {"constraint_tol": ctol, "position_tol": ptol}
         integ = w.new("ConstrainedLeapfrogIntegrator", step_size=positive_step(ctx), n_inner_step=n,
-                      projection_solver=w.projection_solver_stub(), reverse_check_norm=w.norm_stub(), reverse_check_tol=z3.Real("tol"))
+                      projection_solver=w.projection_solver_stub(), reverse_check_norm=w.norm_stub(), reverse_check_tol=z3.Real("tol"),
+                      projection_solver_kwargs=dict(configured))
         st = w.make_state()
         t = z3.Real("t")
+
+        def same(d):
+            return isinstance(d, dict) and set(d) == set(configured) and all(z3.is_expr(d[k]) and d[k].eq(configured[k]) for k in configured)
         try:
-            w.ex.call(w.ex.getattr(integ, "_step"), [st, t], {})
+            try:
+                w.ex.call(w.ex.getattr(integ, "_step"), [st, t], {})
+            finally:
+                # "the constraint holds to the configured tolerance" (on successful AND failed steps: the next step uses the same integrator object)
+                seen = w.__dict__.get("solver_kwargs_seen", [])
+                oks = all(same(d) for d in seen)
+                ctx.run.ob(P + "._step/every-projection-solve-uses-the-configured-tolerances", core.DISCHARGED if oks else core.FAILED, "pyvc",
+                           detail="" if oks else f"solver keyword arguments {[{k: str(v) for k, v in d.items()} for d in seen if not same(d)][:2]} differ from the configured {configured}",
+                           text="every call of the projection solver (forward retraction and reverse check) receives exactly projection_solver_kwargs as configured")
+                kept = same(integ.attrs.get("projection_solver_kwargs"))
+                ctx.run.ob(P + "._step/leaves-the-configured-tolerances-unchanged", core.DISCHARGED if kept else core.FAILED, "pyvc",
+                           detail="" if kept else f"projection_solver_kwargs after the step: { {k: str(v) for k, v in (integ.attrs.get('projection_solver_kwargs') or {}).items()} }",
+                           text="frame: a step does not modify the integrator's projection_solver_kwargs (later steps solve to the same tolerances)")
         except PyRaise:
             return
         evs = [e for e in w.trace if e[0] in ("h1_flow", "h2_flow", "projection_solver", "project_onto_cotangent_space") and e[1] is st]
